@@ -141,6 +141,20 @@ fn op_strategy(p: &GenParams) -> BoxedStrategy<Op> {
             .prop_map(Op::Batch)
             .boxed(),
     );
+    // wide batches: the operation count needs a two-byte varint from 128 on (WAL record header), and
+    // the batch is far larger than the small memtables
+    add(
+        if w.batch > 0 { (w.batch + 7) / 8 } else { 0 },
+        prop_oneof![3 => 120usize..136, 1 => 136usize..300]
+            .prop_flat_map(|n| {
+                prop::collection::vec(
+                    (sel(), prop::option::weighted(0.8, (0u32..24, any::<bool>()).prop_map(|(len, compressible)| Val { len, compressible }))),
+                    n..=n,
+                )
+            })
+            .prop_map(Op::Batch)
+            .boxed(),
+    );
     add(w.get, sel().prop_map(Op::Get).boxed());
     add(w.getall, Just(Op::GetAll).boxed());
     add(w.flush, Just(Op::Flush).boxed());
